@@ -23,12 +23,17 @@ instance is taken and compared as the specification dictates:
   counts   evaluations moved by exactly the number of real objective calls of the action (CopyCounts)
 Where the specification claims nothing (generator deliberately not restored for a DE kind, re-clipping after a deep
 copy under strict ranges, a re-configured instance) nothing is judged.
+
+The ENSEMBLE solvers (LatticeSolver / BuckshotSolver / SparsitySolver: an instance whose private state is the vector of
+its member solvers) are covered by specs/solver/CheckpointEns.tla + Gen_CheckpointEns.tla, bound by harness/c06_ens.py in
+exactly the same way (every member is projected in full; real objective calls are counted per ensemble AND per member).
 """
 import os, sys, io, json, copy, random, time, shutil, types, contextlib
 import numpy as np
 from harness.core import Check, tier_seed, assert_repo, main_guard
 from harness.tlc import run_tlc
 from harness import c06_costs as U
+from harness import c06_ens as E
 
 KINDS = ["DE", "DE2", "NM", "PW"]
 DEK = ("DE", "DE2")
@@ -188,6 +193,10 @@ def seeded(seed):
     random.seed(seed)
     np.random.seed(seed % (2 ** 32))
     return getrng()
+
+
+# the ensemble binding projects every member with project() and handles the generators the same way
+E.H = types.SimpleNamespace(project=project, enc=enc, diff=diff, getrng=getrng, setrng=setrng, seeded=seeded)
 
 
 # ------------------------------------------------------------------------------------------------ execution
@@ -479,6 +488,25 @@ def run_group(job):
     return res
 
 
+def run_any(job):
+    """pool worker: a (kind, setting) group of the single solvers, or an ensemble group (job[0] == "ENS")"""
+    if job[0] == "ENS":
+        return E.run_group(job, _SHARED)
+    return run_group(job)
+
+
+def ens_jobs(tier, seed):
+    """ensemble groups of the thorough tier: one per (kind, setting), each with a TLC run of its own (the quick tier takes
+    them from one pre-generated TLC run per ensemble kind, see explore)"""
+    r = run_tlc(E.GEN, cfg="Gen_CheckpointEns_thorough.cfg", workers=1, env={"C06_LIST": "1"}, timeout=600)
+    ids = sorted(c["id"] for c in r.printed[0]["catalogue"])
+    for i in ids:
+        if i not in E.FLAVOUR:
+            raise RuntimeError("TLC ensemble catalogue has setting %s unknown to the harness" % i)
+    return [("ENS", k, i, tier, seed, part, E.nparts(k, i, tier)) for k in E.EKINDS for i in ids
+            for part in range(E.nparts(k, i, tier))]
+
+
 # ------------------------------------------------------------------------------------------------ design (TLC only)
 VARIANTS = [   # refuted design -> properties TLC must violate for it
     ("snap_omits_internals", ["ResumeEquivalence"]),
@@ -508,31 +536,33 @@ def design_runs(tier, jobs):
     return runs
 
 
-def run_design(ck, tier, jobs):
+def run_design(ck, tier, jobs, ens=True):
     from concurrent.futures import ThreadPoolExecutor
-    runs = design_runs(tier, jobs)
+    runs = [(name, MCMOD, cfg, workers, expect) for name, cfg, workers, expect in design_runs(tier, jobs)]
+    if ens:
+        runs += E.design_runs(tier, jobs)
 
     def one(run):
-        name, cfg, workers, expect = run
-        return run, run_tlc(MCMOD, cfg=cfg, workers=workers, timeout=3000, heap="6g" if expect is None else "2g")
+        name, mod, cfg, workers, expect = run
+        return run, run_tlc(mod, cfg=cfg, workers=workers, timeout=3000, heap="6g" if expect is None else "2g")
     refuted, witnessed = {}, {}
     # one executor of three threads; the exhaustive (multi-threaded) runs are spread between the small refutation /
     # witness runs so that they do not all start at once
-    big = [r for r in runs if r[3] is None]
-    small = [r for r in runs if r[3] is not None]
+    big = [r for r in runs if r[4] is None]
+    small = [r for r in runs if r[4] is not None]
     order, per = [], (len(small) + len(big) - 1) // max(1, len(big))
     for i, b in enumerate(big):
         order += [b] + small[i * per:(i + 1) * per]
     order += small[len(big) * per:]
-    with ThreadPoolExecutor(max(1, min(3, jobs // 2))) as ex:
+    with ThreadPoolExecutor(max(1, min(4 if ens else 3, jobs // 2))) as ex:
         done = list(ex.map(one, order))
-    for (name, cfg, workers, expect), r in done:
+    for (name, mod, cfg, workers, expect), r in done:
         if True:
             if expect is None:
                 ck.mc(r, name)
                 if r.violated:
                     ck.violation("spec:" + r.violated, {"tlc": r.out[-4000:], "cfg": cfg},
-                                 "TLC: %s violated in the design of Checkpoint.tla (%s)" % (r.violated, cfg))
+                                 "TLC: %s violated in the design of %s (%s)" % (r.violated, mod, cfg))
             elif name.startswith("asis:"):
                 refuted[name[5:]] = r.violated
                 if r.violated not in expect:
@@ -553,7 +583,9 @@ RULE = ("every (solver kind, setting, interruption generation k, checkpoint path
         "TLC from Gen_Checkpoint.tla is executed on real solvers; a case = one script; after every command the full "
         "projection of all live instances is compared as the specification says (equal to the uninterrupted run / "
         "unchanged / counters). non-trivial = the restored or copied instance took at least one further step for which "
-        "the specification claims equality with the uninterrupted run")
+        "the specification claims equality with the uninterrupted run. Ensembles (lattice / buckshot / sparsity of Nelder-Mead "
+        "or Powell members): the same with scripts from Gen_CheckpointEns.tla; commands are Step() and Solve() of the "
+        "ensemble, every member is compared in full and counts its own real calls")
 
 
 def groups_for(tier):
@@ -570,7 +602,9 @@ def groups_for(tier):
     return head, groups
 
 
-def explore(ck, a, only=None, design=True):
+def explore(ck, a, only=None, design=True, ens=True):
+    """only: filter on the single-solver groups (kind, setting, n); ens: True = all ensemble groups, False = none, or a
+    filter on the ensemble jobs ("ENS", kind, setting, tier, seed, part, nparts)"""
     assert_repo()
     tier = a.tier
     jobs = max(1, int(a.jobs))
@@ -583,24 +617,51 @@ def explore(ck, a, only=None, design=True):
     groups.sort(key=lambda g: (g[0] != "PW", g[1]))
     jl = [(k, sid, tier, a.seed, n) for k, sid, n in groups]
     pregen = []
-    if tier == "quick" and _SHARED["scripts"] is None:
-        # quick: one TLC run per solver kind (all settings) instead of one per group -- JVM start-up dominates there
+    epregen = []
+    own_cache = False
+    phase = {"t0": time.time()}
+    if tier == "quick":
+        # quick: one TLC run per solver kind / ensemble kind (all settings) instead of one per group -- JVM start-up
+        # dominates there; the groups then take their scripts from the cache the forked workers inherit
         from concurrent.futures import ThreadPoolExecutor
-        kinds = sorted(set(g[0] for g in groups))
+        if _SHARED["scripts"] is None:
+            _SHARED["scripts"] = {}
+            own_cache = True
+            kinds = sorted(set(g[0] for g in groups))
+        else:
+            kinds = []
+        cache = _SHARED["scripts"]
+        ekinds = [k for k in E.EQUICK if ens and not any(key[0] == "ENS" and key[1] == k for key in cache)]
 
-        def gen(kind):
-            return kind, run_tlc(GEN, cfg="Gen_Checkpoint_quick.cfg", workers=1, timeout=3000, heap="3g",
+        def gen(task):
+            what, kind = task
+            if what == "E":
+                return task, E.gen_scripts(kind, "quick")
+            return task, run_tlc(GEN, cfg="Gen_Checkpoint_quick.cfg", workers=1, timeout=3000, heap="3g",
                                  env={"C06_KIND": kind, "C06_N": groups[0][2]})
-        cache = {}
-        with ThreadPoolExecutor(min(len(kinds), jobs)) as ex:
-            for kind, r in ex.map(gen, kinds):
-                pregen.append((kind, r))
-                for sc in r.printed[1:]:
-                    cache.setdefault((kind, sc["sid"]), [r.printed[0]]).append(sc)
-        _SHARED["scripts"] = cache
-        own_cache = True
+        tasks = [("E", k) for k in ekinds] + [("S", k) for k in kinds]
+        if tasks:
+            with ThreadPoolExecutor(min(len(tasks), jobs)) as ex:
+                for (what, kind), r in ex.map(gen, tasks):
+                    if what == "E":
+                        epregen.append((kind, r))
+                        for c in r.printed[0]["catalogue"]:
+                            cache[("ENS", kind, c["id"])] = [r.printed[0]]
+                        for sc in r.printed[1:]:
+                            cache[("ENS", kind, sc["sid"])].append(sc)
+                    else:
+                        pregen.append((kind, r))
+                        for sc in r.printed[1:]:
+                            cache.setdefault((kind, sc["sid"]), [r.printed[0]]).append(sc)
+        ejl = [("ENS", key[1], key[2], tier, a.seed, part, E.nparts(key[1], key[2], tier))
+               for key in sorted(k for k in cache if k[0] == "ENS") for part in range(E.nparts(key[1], key[2], tier))] if ens else []
     else:
-        own_cache = False
+        ejl = ens_jobs(tier, a.seed) if ens else []
+    ejl = [j for j in ejl if ens is True or ens(j)]
+    # the slowest ensemble groups first: sparsity (sampling the starting points), then those that pickle at every step
+    ejl.sort(key=lambda j: (j[1] != "SNM", j[2] not in (105, 108), j[1], j[2]))
+    jl = ejl + jl
+    phase["pregen"] = round(time.time() - phase["t0"], 1)
     nproc = max(1, min(len(jl), jobs - (3 if design else 0)))
     pool = mp.get_context("fork").Pool(nproc) if nproc > 1 else None      # fork before any thread exists
     th = None
@@ -609,12 +670,14 @@ def explore(ck, a, only=None, design=True):
         if design:
             def guarded():
                 try:
-                    run_design(ck, tier, jobs)
+                    run_design(ck, tier, jobs, ens=bool(ejl))
                 except BaseException as ex:        # machinery failures of the design runs must not be lost
                     failed.append(ex)
+                phase["design_done"] = round(time.time() - phase["t0"], 1)
             th = threading.Thread(target=guarded)
             th.start()
-        results = pool.map(run_group, jl, chunksize=1) if pool else [run_group(j) for j in jl]
+        results = pool.map(run_any, jl, chunksize=1) if pool else [run_any(j) for j in jl]
+        phase["groups_done"] = round(time.time() - phase["t0"], 1)
     finally:
         if pool:
             pool.close()
@@ -625,11 +688,21 @@ def explore(ck, a, only=None, design=True):
         _SHARED["scripts"] = None
     if failed:
         raise failed[0]
+    for kind, r in epregen:
+        ck.mc(r, "Gen_CheckpointEns[%s, all quick settings]" % kind)
+        if r.violated:
+            ck.violation("spec:gen:ens:" + r.violated, {"tlc": r.out[-3000:]},
+                         "TLC: %s violated in Gen_CheckpointEns for %s" % (r.violated, kind))
     for kind, r in pregen:
         ck.mc(r, "Gen_Checkpoint[%s, all quick settings]" % kind)
         if r.violated:
             ck.violation("spec:gen:" + r.violated, {"tlc": r.out[-3000:]},
                          "TLC: %s violated in Gen_Checkpoint for %s" % (r.violated, kind))
+    del phase["t0"]
+    ck.extra["phases_done_at_s(pregen,groups,design)"] = phase
+    eres = [r for r in results if r.get("ens")]
+    results = [r for r in results if not r.get("ens")]
+    merge_ens(ck, eres, tier)
     nsteps = 0
     for res in results:
         if res["mc"]:
@@ -659,13 +732,53 @@ def explore(ck, a, only=None, design=True):
     ck.extra["claims_equal_to_uninterrupted_run"] = sum(r["claims"] for r in results)
     nstop = sum(r["atstop"] for r in results)
     ck.extra["scripts_restoring_the_checkpoint_taken_at_the_stop_and_continuing"] = nstop
-    if results and not nstop and not only:
+    if results and not nstop and not only and not _SHARED["corrupt"]:
         ck.violation("spec:unreachable:atstop", {}, "no script restores a checkpoint taken at the stop of a run and continues it")
     ck.extra["settings"] = {str(c["id"]): DESCR[c["id"]] for c in head["catalogue"]}
     ck.extra["run_length_n(kind,setting)"] = {"%s,%d" % (k, sid): n for k, sid, n in groups}
     ck.extra["slowest_groups"] = sorted(((r["wall_s"], r["kind"], r["sid"]) for r in results), reverse=True)[:6]
     ck.extra["sum_group_wall_s"] = round(sum(r["wall_s"] for r in results), 1)
     return results
+
+
+def merge_ens(ck, eres, tier):
+    """evidence of the ensemble part"""
+    if not eres:
+        return
+    for res in eres:
+        tag = "%s,%s" % (res["kind"], "all %s settings" % tier if res["sid"] is None else res["sid"])
+        if res["mc"]:
+            ck.mc(res["mc"], "Gen_CheckpointEns[%s]" % tag)
+            if res["mc"]["violated"]:
+                ck.violation("spec:gen:ens:" + res["mc"]["violated"], {"tlc": res["mc"]["out"]},
+                             "TLC: %s violated in Gen_CheckpointEns for %s" % (res["mc"]["violated"], tag))
+        ck.case(n=res["scripts"] - len(res["nontrivial"]))
+        for key in res["nontrivial"]:
+            ck.case(nontrivial=True, key=tuple(key))
+        ck.trace(res["scripts"])
+        for key, detail, what in res["viol"]:
+            ck.violation(key, detail, what)
+    for kind in ("LNM", "BPW"):
+        got = [r["sample"] for r in eres if r["kind"] == kind and r["sample"]]
+        if got:
+            ck.sample(got[0])
+    nstop = sum(r["atstop"] for r in eres)
+    ck.extra["ensembles"] = {
+        "kinds": {k: E.EDESCR[k] for k in sorted(set(r["kind"] for r in eres))},
+        "settings": {str(i): E.DESCR[i] for i in sorted(E.DESCR) if tier == "thorough" or i not in (101, 108)},
+        "groups": len(set((r["kind"], r["sid"]) for r in eres)), "jobs": len(eres),
+        "scripts": sum(r["scripts"] for r in eres),
+        "public_calls_compared(Step/Solve)": sum(r["steps"] for r in eres),
+        "of_which_Solve": sum(r["solves"] for r in eres),
+        "member_states_compared": sum(r["member_steps"] for r in eres),
+        "claims_equal_to_uninterrupted_ensemble": sum(r["claims"] for r in eres),
+        "scripts_restoring_the_checkpoint_taken_at_the_stop": nstop,
+        "slowest_groups": sorted(((r["wall_s"], r["kind"], str(r["sid"])) for r in eres), reverse=True)[:4],
+        "not_claimed": "continuing a stopped ensemble by raising its limits (SetEvaluationLimits on the ensemble does not "
+                       "reach the members, nothing documents it): a stopped ensemble only refuses further calls",
+    }
+    if not nstop and not _SHARED["corrupt"] and any(r["scripts"] for r in eres):
+        ck.violation("spec:unreachable:ens:atstop", {}, "no ensemble script restores a checkpoint taken at the stop and calls it again")
 
 
 def new_check(a):
@@ -683,6 +796,10 @@ def new_check(a):
         "user termination conditions never fire inside the run (stops come from generation / evaluation limits, which "
         "the specification predicts); costs are finite; copy.copy is a shallow copy that shares state by definition "
         "(the specification's refuted design copy_shares_counter) and is not judged",
+        "ensembles: driven through the in-process serial map c06_costs.cmap (members run in member order, as with the "
+        "default map), class-API nested solvers; the only user termination that fires is the harness's StopMember (a "
+        "deterministic function of the member's id and generation) which the specification predicts; continuing a stopped "
+        "ensemble by raising its limits is not claimed (the API does not pass the new limits to the members)",
     ]
     return ck
 
@@ -712,7 +829,12 @@ def selftest(a):
             cache[g] = printed
     _SHARED["scripts"] = cache
 
-    def attempt(name, mk, corrupt=None):
+    nobody = lambda g: False
+    # the ensemble part on its own: two ensemble kinds, the settings without the step-wise periodic dump (setting 105 is
+    # where the unchanged tree has its member-file finding: a run that is violated anyway shows nothing about a mutant)
+    esel = lambda j: j[1] in ("LNM", "BPW") and j[2] in (102, 103, 104, 106, 107)
+
+    def attempt(name, mk, corrupt=None, ens=False):
         undo = mk() if mk else None
         try:
             ck = new_check(a2)
@@ -722,14 +844,17 @@ def selftest(a):
             with contextlib.redirect_stdout(buf):
                 try:
                     _SHARED["corrupt"] = corrupt
-                    explore(ck, a2, only=sel, design=False)
+                    if ens:
+                        explore(ck, a2, only=nobody, design=False, ens=esel)
+                    else:
+                        explore(ck, a2, only=sel, design=False, ens=False)
                     rc = 1 if ck.violations else 0
                 except Exception as ex:
                     rc = "raised %r" % (ex,)
             classes = sorted(ck.viol_keys)
             caught = rc != 0
             if mk is not None or corrupt is not None:
-                print("SELFTEST %s: %s   %s" % (name, "caught" if caught else "MISSED",
+                print("SELFTEST %s%s: %s   %s" % ("[ensembles] " if ens else "", name, "caught" if caught else "MISSED",
                                                 (str(rc) if isinstance(rc, str) else "; ".join(classes))[:260]))
             sys.stdout.flush()
             return caught
@@ -834,6 +959,90 @@ def selftest(a):
     missed += 0 if attempt("corrupted expectation: equal-to-reference generation off by one", None, corrupt_r) else 1
     missed += 0 if attempt("corrupted expectation: restored instance claimed equal to the advanced original", None, corrupt_e) else 1
     missed += 0 if attempt("corrupted expectation: predicted generation counter", None, corrupt_g) else 1
+
+    # ---------------------------------------------------------------- the ensemble part (CheckpointEns / c06_ens)
+    import mystic.abstract_ensemble_solver as AES_
+    AES = AES_.AbstractEnsembleSolver
+    ok = not attempt("control", None, ens=True)
+    print("SELFTEST-CONTROL [ensembles] unchanged mystic passes the reduced ensemble run used for the mutants: %s"
+          % ("yes" if ok else "NO (self-test invalid)"))
+    missed += 0 if ok else 1
+    emuts = []
+    emuts.append(("deepcopy of an ensemble holds the original's member solvers",
+                  lambda: patch(AS, "__deepcopy__", "        result._live = False\n",
+                                "        result._live = False\n        if hasattr(self, '_allSolvers'): result._allSolvers = self._allSolvers\n")))
+
+    def m_bestonly():
+        def getstate(self):
+            d = dict(self.__dict__)
+            d["_allSolvers"] = [m if m is d.get("_bestSolver") else None for m in d["_allSolvers"]]
+            return d
+        return setattr_undo(AES, "__getstate__", getstate)
+    emuts.append(("pickling an ensemble keeps only its best member (the others are rebuilt)", m_bestonly))
+
+    def m_dropcounters():
+        def setstate(self, d):
+            self.__dict__.update(d)
+            for m in self._allSolvers:
+                if m is not None and m is not self._bestSolver:
+                    m._fcalls[0] = 0
+        return setattr_undo(AES, "__setstate__", setstate)
+    emuts.append(("unpickling an ensemble drops the evaluation counters of the members that are not the best", m_dropcounters))
+
+    def m_stepflag():
+        def getstate(self):
+            d = dict(self.__dict__)
+            d["_step"] = False
+            return d
+        return setattr_undo(AES, "__getstate__", getstate)
+    emuts.append(("the sticky step flag of an ensemble is not pickled", m_stepflag))
+    emuts.append(("deepcopy leaves the members of the copied ensemble live: they count into detached cells (2fd65b7 reverted)",
+                  lambda: patch(AS, "__deepcopy__", "        result._live = False\n", "        pass\n")))
+
+    def m_membermon():
+        def getstate(self):
+            d = dict(self.__dict__)
+            d["_y"] = list(d["_y"][:-1]) + [0.0] if d["_y"] else []
+            return d
+        return setattr_undo(Monitor, "__getstate__", getstate)
+    emuts.append(("pickling a monitor corrupts its last recorded energy (members' monitors)", m_membermon))
+    emuts.append(("a terminated member is stepped again by the ensemble (the stop verdict of the members is ignored)",
+                  lambda: patch(AES, "_Step", "            solver.Step(cost,ExtraArgs=ExtraArgs,disp=disp,callback=callback)\n",
+                                "            solver.Step(cost,ExtraArgs=ExtraArgs,disp=disp,callback=callback)\n"
+                                "            if _term is True: solver._Step()\n")))
+    for name, mk in emuts:
+        missed += 0 if attempt(name, mk, ens=True) else 1
+
+    def ecorrupt_r(scripts):
+        out = json.loads(json.dumps(scripts))
+        for sc in out:
+            for op in sc["ops"]:
+                if op["c"] == "step" and op["x"] >= 3 and op["r"] >= 1 and not op["st"]:
+                    op["r"] -= 1
+                    return out
+        return out
+
+    def ecorrupt_mg(scripts):
+        out = json.loads(json.dumps(scripts))
+        for sc in out:
+            for op in sc["ops"]:
+                if op["c"] == "step" and op["x"] >= 3:
+                    op["mg"][-1] += 1
+                    return out
+        return out
+
+    def ecorrupt_e(scripts):
+        out = json.loads(json.dumps(scripts))
+        for sc in out:
+            if sc["mode"] == "orig_first" and not sc["atstop"]:
+                for op in sc["ops"]:
+                    if op["c"].startswith("load") or op["c"] == "copy":
+                        op["e"] = sorted(set(op["e"]) | {2})
+                        return out
+        return out
+    missed += 0 if attempt("corrupted expectation: equal-to-reference index of a restored ensemble off by one", None, ecorrupt_r, ens=True) else 1
+    missed += 0 if attempt("corrupted expectation: predicted generation counter of one member", None, ecorrupt_mg, ens=True) else 1
+    missed += 0 if attempt("corrupted expectation: restored ensemble claimed equal to the advanced original", None, ecorrupt_e, ens=True) else 1
     shutil.rmtree(selftest_out, ignore_errors=True)
     return 1 if missed else 0
 
@@ -846,7 +1055,10 @@ def replay(a):
     scratch = "/dev/shm/c06_replay_%d" % os.getpid()
     os.makedirs(scratch, exist_ok=True)
     try:
-        g = Group(d["kind"], d["setting"], d["n"], d["NP"], d["seed"], scratch)
+        if d.get("ensemble"):
+            g = E.EnsGroup(d["kind"], d["setting"], d["n"], d["nm"], d["seed"], scratch)
+        else:
+            g = Group(d["kind"], d["setting"], d["n"], d["NP"], d["seed"], scratch)
         with contextlib.redirect_stdout(io.StringIO()):
             g.run_script(sc)
     finally:
